@@ -104,7 +104,21 @@ def run(ctx):
                          rssi=rng.choice([-128, -1, 0, 127, rng.randint(-128, 127)]), sender=rng.getrandbits(16), binding=rng.getrandbits(8),
                          addr=rng.getrandbits(8), payload=bytes(rng.getrandbits(8) for _ in range(plen)), eui64=[rng.getrandbits(8) for _ in range(8)],
                          ts=rng.getrandbits(32))
-                frame = ezsplib.spec_header(version, rng.getrandbits(8), im_id) + build_incoming(version, im_rx, v)
+                cb_seq = rng.getrandbits(8)
+                if rng.random() < 0.15:
+                    # a command abandoned by its caller (cancelled while waiting for the reply), then a callback that happens
+                    # to carry the sequence number that command used: it is a callback, to be translated like any other
+                    class _G:
+                        async def send_data(self, d):
+                            pass
+
+                    e._protocol._gw = _G()
+                    tk = loop.create_task(e._protocol.command("nop"))
+                    loop.settle()
+                    cb_seq = (e._protocol._seq - 1) % 256
+                    tk.cancel()
+                    loop.settle()
+                frame = ezsplib.spec_header(version, cb_seq, im_id) + build_incoming(version, im_rx, v)
                 # the radio's own address is whatever the application state holds *now*: it changes between callbacks,
                 # in place or (as load_network_info does) by replacing the node-info object
                 r = rng.random()
@@ -213,7 +227,7 @@ def run(ctx):
         if i % 400 == 0:
             ctx.sample({"version": version, "kind": kind, "frame": hx(frame)[:80], "impl": impl[:160], "model": model[i][:160] if model else None})
     ctx.cov["rule"] = ("for every version 4..14: incomingMessageHandler frames with message types 0..6 and undefined ones, random APS fields, payload lengths 0..100, RSSI extremes, the radio's own address changing between callbacks (in place or by replacing the node-info object); "
-                       "every third callback followed by the same callback again or by another message of the same sender with the same APS counter; trustCenterJoinHandler frames over all status x decision classes, 40 % from the vendors whose join starts the manufacturer-code override, following each other while that override is pending; encoded by role from the version's schema order, pushed through the real receive path and the real callback handler")
+                       "callbacks carrying the sequence number of a command its caller abandoned; every third callback followed by the same callback again or by another message of the same sender with the same APS counter; trustCenterJoinHandler frames over all status x decision classes, 40 % from the vendors whose join starts the manufacturer-code override, following each other while that override is pending; encoded by role from the version's schema order, pushed through the real receive path and the real callback handler")
     ctx.exhaustive = False
 
 
